@@ -379,9 +379,6 @@ def features(src, tree, sm):
             if any(isinstance(v, ast.Constant) and isinstance(v.value, str) and ("{" in v.value or "}" in v.value)
                    for v in n.values):
                 site("fstring-escaped-brace", sp)
-            tq = _triple_quote_tail(src[sp[0]:sp[1]])
-            if tq:
-                site("fstring-triple-quote-tail", sp)
             for v in n.values:
                 if isinstance(v, ast.FormattedValue) and v.format_spec is not None and any(
                         isinstance(x, ast.FormattedValue) for x in v.format_spec.values):
@@ -412,30 +409,53 @@ def features(src, tree, sm):
 # attribution of failures that no node-local rule explains: first cause (in this order) with a site there
 CAUSES = ["string-after-f-word", "non-nfkc-identifier",
           "class-keywords-type-params", "signature-syntax", "match-sequence-parens",
-          "fstring-triple-quote-tail", "fstring-concat", "fstring-escaped-brace", "fstring-nested-spec",
+          "fstring-concat", "fstring-escaped-brace", "fstring-nested-spec",
           "tuple-trailing-comma"]
-
-
-RE_FSTRING_OPEN = re.compile(r"[rRfF]{1,2}(\'\'\'|\"\"\"|\'|\")")
-
-
-def _triple_quote_tail(text):
-    """exact shape of finding C08-fstring-triple-quote-tail: one f-string literal delimited by a single quote
-    character whose text contains a triple quote, and fewer than two characters between the last '}' and the
-    closing quote (end_quote_char then returns three characters that overlap the last replacement field)"""
-    m = RE_FSTRING_OPEN.match(text)
-    if not m or len(m.group(1)) != 1 or not text.endswith(m.group(1)):
-        return False
-    body = text[m.end():-1]
-    if '"""' not in body and "'''" not in body:
-        return False
-    if m.group(1) in body.replace("\\" + m.group(1), ""):
-        return False          # several literals (implicit concatenation): another finding
-    return "}" in body and len(body) - body.rfind("}") - 1 < 2
 
 
 def _touches(a, b):
     return a[0] <= b[1] and b[0] <= a[1]
+
+
+def item_gaps(fr):
+    """offsets of the texts between consecutive items of one _handle call, from the consumption log of the frame
+    (works for frames that were aborted by an exception too: the items consumed so far)"""
+    n = len([it for it in fr.items if it is not None])
+    out, prev = [], None
+    for ev in fr.events[:n]:
+        if ev[0] == "sub":
+            reg = getattr(ev[1], "region", None)
+            if reg is None or reg[0] is None:
+                break
+            s, e = reg
+        else:
+            s, e = ev[1], ev[2]
+        if prev is not None and s >= prev:
+            out.append((prev, s))
+        prev = e
+    return out
+
+
+RE_LAYOUT = re.compile(r"#[^\n]*|\\\n|[\s();,]")
+
+
+def item_gaps(fr):
+    """offsets of the texts between consecutive items of one _handle call, from the consumption log of the frame
+    (works for frames that were aborted by an exception too: the items consumed so far)"""
+    n = len([it for it in fr.items if it is not None])
+    out, prev = [], None
+    for ev in fr.events[:n]:
+        if ev[0] == "sub":
+            reg = getattr(ev[1], "region", None)
+            if reg is None or reg[0] is None:
+                break
+            s, e = reg
+        else:
+            s, e = ev[1], ev[2]
+        if prev is not None and s >= prev:
+            out.append((prev, s))
+        prev = e
+    return out
 
 
 RE_LAYOUT = re.compile(r"#[^\n]*|\\\n|[\s();,]")
@@ -510,29 +530,37 @@ def check(src, res):
     sm = SrcMap(src)
     feats = features(src, tree, sm)
 
-    def nonlocal_sig(raw):
-        """a failure that cannot be located (text written back differs) is attributed to the first recorded
-        cause present in the input"""
-        return next((c for c in CAUSES if c in feats), raw)
+    anomalies = []      # spans of everything no node-local rule explains; the leftmost one is the onset
+    pending = []        # failures that are consequences (crash, text written back differs, derailed cursor)
 
     def local_sig(raw, span):
         """a failure located at `span` is attributed to the first recorded cause that has a site there"""
         if span is None:
             return raw
+        anomalies.append(span)
         for c in CAUSES:
             if any(_touches(span, st) for st in feats.get(c, ())):
                 return c
         return raw
 
-    def upstream_sig(raw, span):
-        """an exception is attributed to the first recorded cause with a site at or before the place where
-        the walker stopped (a derailed cursor only has effects further down)"""
-        if span is None:
-            return nonlocal_sig(raw)
-        for c in CAUSES:
-            if any(st[0] <= span[1] for st in feats.get(c, ())):
-                return c
-        return raw
+    def later(clause, raw, detail, span=None):
+        """a failure that is a consequence of something that went wrong earlier in the walk: it is attributed
+        to a recorded cause only if the ONSET of the trouble -- the leftmost anomaly of the run -- lies at a
+        site of that cause (a derailed cursor only has effects further down); resolved at the end"""
+        if span is not None:
+            anomalies.append(span)
+        f = {"clause": clause, "sig": raw, "detail": detail}
+        pending.append(f)
+        fails.append(f)
+
+    def resolve_pending():
+        if not pending or not anomalies:
+            return
+        onset = min(anomalies, key=lambda sp: (sp[0], sp[1]))
+        cause = next((c for c in CAUSES if any(_touches(onset, st) for st in feats.get(c, ()))), None)
+        if cause is not None:
+            for f in pending:
+                f["sig"] = cause
 
     def node_span(node):
         """the text a failure at `node` is about: interpreter span united with rope's region"""
@@ -542,15 +570,17 @@ def check(src, res):
             sp = tuple(reg) if sp is None else (min(sp[0], reg[0]), max(sp[1], reg[1]))
         return sp
 
-    if res.error is not None:
+    crashed = res.error is not None
+    if crashed:
         crash = res.rec.crash[-1].node if res.rec is not None and res.rec.crash else None
-        sp = node_span(crash) if crash is not None else None
-        if res.rec is not None and res.rec.crash:      # include the text between the cursor and the node
+        sp = None
+        if res.rec is not None and res.rec.crash:      # the text between the entry of the innermost frame and the cursor
             ent, cur = res.rec.crash[-1].entry, res.rec.crash_offset
-            sp = (ent, cur) if sp is None else (min(sp[0], ent), max(sp[1], cur))
-        fails.append({"clause": "i", "sig": upstream_sig("raises:" + res.error, sp),
-                      "detail": "%s (inside %s)" % (res.error_msg, type(crash).__name__)})
-        return fails
+            sp = (min(ent, cur), max(ent, cur))
+            ns = None if isinstance(crash, ast.Module) else sm.span(crash)
+            if ns is not None:
+                sp = (min(sp[0], ns[0]), max(sp[1], ns[1]))
+        later("i", "raises:" + res.error, "%s (inside %s)" % (res.error_msg, type(crash).__name__), sp)
     for w in res.warnings:
         fails.append({"clause": "i", "sig": "warns:" + w.split(";")[0][:60], "detail": w})
     esc = escapes(res)
@@ -559,11 +589,15 @@ def check(src, res):
         fails.append({"clause": "v", "sig": local_sig("left-escape", node_span(fr.node)),
                       "detail": "%s node entered at offset %d got region %r: its text starts before the cursor"
                                 % (fr.cls, fr.entry, fr.node.region)})
-    if res.write_error is not None:
+    if crashed:
+        pass
+    elif res.write_error is not None:
         fails.append({"clause": "ii", "sig": "write_ast raises", "detail": res.write_error})
     elif res.written != src:
-        fails.append({"clause": "ii", "sig": "left-escape" if esc else nonlocal_sig("lossless"),
-                      "detail": _first_diff(src, res.written)})
+        if esc:
+            fails.append({"clause": "ii", "sig": "left-escape", "detail": _first_diff(src, res.written)})
+        else:
+            later("ii", "lossless", _first_diff(src, res.written))
     par = parents_of(tree)
     expect = Expect(sm, par)
     n = len(src)
@@ -656,9 +690,9 @@ def check(src, res):
     # optional trailing commas; anything else is a token the template forgot
     if res.rec is not None and not esc:
         for fr in res.rec.frames:
-            if not fr.done or fr.joined or fr.skipped:
+            if fr.joined or fr.skipped:
                 continue
-            for (a, b) in format_spans(fr, src):
+            for (a, b) in item_gaps(fr):
                 left = RE_LAYOUT.sub("", src[a:b])
                 if fr.cls in ("ImportFrom", "alias"):
                     left = left.replace(".", "")       # dotted names: the template lists the name parts only
@@ -669,9 +703,17 @@ def check(src, res):
                     add("vii", "slice-empty-step", "format text %r of a %s node holds the second colon of a slice" % (
                         src[a:b][:40], fr.cls))
                 elif left:
-                    add("vii", upstream_sig("format-holds-token:%s" % NORM_CLS.get(fr.cls, fr.cls), (a, b)),
-                        "format text %r of a %s node holds %r, which no template item accounts for" % (
-                            src[a:b][:60], fr.cls, left[:20]))
+                    raw = "format-holds-token:%s" % NORM_CLS.get(fr.cls, fr.cls)
+                    if raw not in seen:
+                        seen.add(raw)
+                        later("vii", raw, "format text %r of a %s node holds %r, which no template item accounts for" % (
+                            src[a:b][:60], fr.cls, left[:20]), (a, b))
+                    else:
+                        anomalies.append((a, b))
+    resolve_pending()
+    if crashed:
+        # the run was aborted: everything else seen on the partially annotated tree only serves to find the onset
+        return [f for f in fails if f in pending and f["clause"] == "i"]
     # the left-escape entries all describe one event: keep one
     out, got_escape = [], False
     for f in fails:
@@ -768,12 +810,6 @@ FINDINGS = {
         "f-string with a replacement field inside a format spec: the inner FormattedValue is never annotated and "
         "the outer one ends at the inner '}'",
         'x = f"{a:{w}}"\n'),
-    "fstring-triple-quote-tail": (
-        "C08-fstring-triple-quote-tail",
-        "f-string delimited by a single quote character whose text contains a triple quote and ends less than two "
-        "characters after its last replacement field: _JoinedStr.end_quote_char takes the longest quote found anywhere "
-        "in the literal and returns its last three characters, which overlap the field; ValueError (substring not found)",
-        'x = f\'"""{a}\'\n'),
     "fstring-concat": (
         "C08-fstring-concat",
         "f-string implicitly concatenated with other literals: only the f-string part is consumed (region too "
